@@ -93,7 +93,7 @@ STACKS = ('wsgi', 'asgi')
 # ---------------------------------------------------------------------------
 # Part A: operations
 # ---------------------------------------------------------------------------
-NAMES = ('X-A', 'x-a', 'X-B', 'Content-Type', 'Vary')
+NAMES = ('X-A', 'x-a', 'X-B', 'Content-Type', 'Vary', 'LiNk')    # Link: also written by append_link()
 PROP_HEADER = {'content_type': 'content-type', 'cache_control': 'cache-control', 'etag': 'etag',
                'location': 'location', 'vary': 'vary', 'content_length': 'content-length',
                'downloadable_as': 'content-disposition'}
@@ -767,7 +767,10 @@ def run_cookie_shard(shard, rep):
 # ---------------------------------------------------------------------------
 # Part C: URI-bearing helpers
 # ---------------------------------------------------------------------------
-URI_ALPHABET = ('a', ' ', '\xe9', '\U0001F600', '/', '?', '#', '\t')   # TAB: a byte below 0x10 (two-digit escapes!)
+# TAB: a byte below 0x10 (two-digit escapes!); sharp s: a LETTER that no normalisation form reduces to ASCII
+URI_ALPHABET = ('a', ' ', '\xe9', '\U0001F600', '/', '?', '#', '\t', '\xdf')
+# alphanumerics outside ASCII without an ASCII decomposition (Latin, Cyrillic, Arabic-Indic digit, CJK)
+LETTER_CASES = ('Stra\xdfe.pdf', '\xf8.txt', '\u0141\xf3d\u017a', '\u0416.txt', '\u0663', '\u4e2d.bin')
 PERCENT_CASES = ('%20', 'a%2Fb', '%C3%A9', '%c3%a9x', '%', 'a%', '%2', '%zz', ' %20', '%20 ', '\xe9%41', '100%', '%%41')
 
 
@@ -775,7 +778,7 @@ def uri_strings(maxlen):
     for L in range(1, maxlen + 1):
         for tup in itertools.product(URI_ALPHABET, repeat=L):
             yield ''.join(tup)
-    for s in PERCENT_CASES:
+    for s in PERCENT_CASES + LETTER_CASES:
         yield s
 
 
